@@ -228,6 +228,23 @@ PROPS.update({
                         "the split regex (.+)/(.+) as specified; pyro_app's routing (method, /pyro/ prefix) and singlyfy_parameters are covered by the native harness only",
                         "fidelity of JSON and of the remote call itself (C01/C03)"],
     },
+    "C04": {
+        "modules": ["specs.socket_model", "specs.pystruct", "specs.seqdict", "specs.opaque", "specs.daemon_model", "contracts.deserialize"],
+        "contracts": ["Pyro5.serializers.SerializerBase.dict_to_class"],
+        "lemmas": ["C04:decoding-closure"],
+        "harness": "replay/c04.py",
+        "explanation": "SerializerBase.dict_to_class proved, for every tag string: the only callable that is not one of Pyro's fixed constructors is a converter "
+                       "registered for exactly this tag; Pyro's own classes and make_exception are reached only for tags without a double underscore and without a "
+                       "registered converter; names are resolved by getattr only in Pyro5.errors / builtins / sqlite3 with the namespace prefix matched exactly; "
+                       "make_exception's precondition (only BaseException subclasses are instantiated) holds at every call site; the exception whitelist and the "
+                       "converter registry are never written.  Lemma decoding-closure (syntactic, on the AST of the current tree): the decoding functions name no "
+                       "importer, evaluator or opener and import nothing but sqlite3 and Pyro's own modules.  Reachable types of whole decoded payloads per "
+                       "serializer, audit events and both decoding paths: bounded native harness only.",
+        "assumptions": ["the decoded payload is plain data (what serpent / json / marshal / msgpack decoders yield); getattr(module, name) and issubclass are uninterpreted, "
+                        "issubclass upward closed along the known class lattice; all_exceptions holds only BaseException subclasses (import-time filter, not re-proved)",
+                        "recreate_classes, the msgpack hooks, the serpent float case, __setstate__ of URI/Proxy/Daemon and make_exception's body are covered by the "
+                        "syntactic lemma and the bounded harness only (audit hook over ~50k quick / ~500k thorough decodes)"],
+    },
     "C14": {
         "modules": ["specs.socket_model", "specs.seqdict", "specs.opaque", "specs.storage_model", "contracts.nameserver_locks", "contracts.nameserver_map"],
         "contracts": ["Pyro5.nameserver.NameServer.count#map", "Pyro5.nameserver.NameServer.lookup#map", "Pyro5.nameserver.NameServer.register#map",
